@@ -1,6 +1,7 @@
 """C12 - fields stay independent values under any history of copy, move, assign, convert.
 
-E1  Lifecycle.tla (AssignImpl = "fixed"): Refines, NoAlias, NoUseAfterFree, NoDoubleFree, NoLeak, ConfigKept,
+E1  Lifecycle.tla (AssignImpl = "fixed"): histories of ANY length over 2 slots (unbounded mode: finite state space, full
+    reachability) and Refines, NoAlias, NoUseAfterFree, NoDoubleFree, NoLeak, ConfigKept,
     RoundTrip + SourceUnchanged over all histories of 2 slots (<=5 ops quick, <=6 thorough) and 3 slots (<=5);
     the "pinned" configuration must FAIL with the self-copy-assignment counterexample (documented defect).
 E3  a seeded random driver (independent of TLC's enumeration) performs 70-operation histories on real fields; every logged
@@ -16,6 +17,11 @@ LEVEL = "model_checking"
 
 def run(ck):
     ck.tlc("Lifecycle", "MC_Lifecycle.quick.cfg", timeout=900)
+    # histories of ANY length: with freed block ids recycled the state space of the repaired model is finite and TLC explores
+    # all of it (2 slots, strided + morton, construct / write / copy and move construction and assignment incl. self /
+    # conversion / destruction)
+    ck.tlc("Lifecycle", "MC_Lifecycle.unboundedq.cfg" if ck.quick else "MC_Lifecycle.unbounded.cfg", timeout=1800)
+    ck.bound("unbounded_history_configuration", "2 slots, extents {2x1}" if ck.quick else "2 slots, extents {2x1, 1x3}")
     if not ck.quick:
         ck.tlc("Lifecycle", "MC_Lifecycle.thorough2.cfg", timeout=1800)
         ck.tlc("Lifecycle", "MC_Lifecycle.thorough3.cfg", timeout=1800)
